@@ -305,6 +305,11 @@ func genListCase(rt *rapid.T, maxN int) listCase {
 	c.NameLen = rapid.SampledFrom([]int{0, 0, 1, 2, 8, 60, 255}).Draw(rt, "namelen")
 	if strings.HasPrefix(c.FS, "composefs") && c.N > 300 {
 		c.N = 300
+		// a mounted local directory may be large: more files than any table a
+		// QID mapper might bound itself to
+		if c.FS == "composefs-mount" && rapid.Bool().Draw(rt, "bigmount") {
+			c.N = rapid.SampledFrom([]int{1030, 1500, 2100}).Draw(rt, "nbig")
+		}
 	}
 	maxName := c.NameLen
 	if maxName == 0 {
